@@ -154,6 +154,28 @@ def register(M):
         return Obj('iter', items=tuple(Adt('(&K, &V)', {(None, 0): Ref(Cell(m.entries[i][0]), ()), (None, 1): Ref(cell, path + (('slot', i),))})
                                        for i in orders_of(ex, m)), ty=dty)
 
+    @reg('LinkedHashMap::front', 'LinkedHashMap::back')
+    def _(ex, info, a, dty):
+        cell, path, m = M._map_at(ex, a[0])
+        if m.kind != 'assoc' or not m.d.get('linked'):
+            raise Inconclusive('front()/back() on %r' % (m,))
+        if not m.entries:
+            return M.none(dty)
+        i = 0 if info['method'] == 'front' else len(m.entries) - 1
+        return M.some(dty, Adt('(&K, &V)', {(None, 0): Ref(Cell(m.entries[i][0]), ()), (None, 1): Ref(cell, path + (('slot', i),))}))
+
+    @reg('LinkedHashMap::pop_front', 'LinkedHashMap::pop_back')
+    def _(ex, info, a, dty):
+        cell, path, m = M._map_at(ex, a[0])
+        if m.kind != 'assoc' or not m.d.get('linked'):
+            raise Inconclusive('pop_front()/pop_back() on %r' % (m,))
+        if not m.entries:
+            return M.none(dty)
+        i = 0 if info['method'] == 'pop_front' else len(m.entries) - 1
+        k, v = m.entries[i]
+        ex.write_path(cell, path, m.set(entries=m.entries[:i] + m.entries[i + 1:]))
+        return M.some(dty, Adt('(K, V)', {(None, 0): k, (None, 1): v}))
+
     @reg('HashMap::keys')
     def _(ex, info, a, dty):
         cell, path, m = M._map_at(ex, a[0])
